@@ -845,6 +845,50 @@ def src_highlight_only_with_color(path):
     return ok, 'colorize_source reached only under config.use_color (%s)' % v
 
 
+# ------------------------------------------------------------------------------------------ C13
+# the one place where the differ edits its arguments: the output differ detaches 'data' from both outputs and puts it back
+
+DETACH = dict(COMMON, **{
+    '*.pop': {'effect': 'pop', 'raises': False},
+    'copy.deepcopy': {'effect': None, 'raises': False},
+    'nbdime.diffing.generic.diff': {'effect': None, 'raises': False},
+    'nbdime.diffing.notebooks.diff_mime_bundle': {'effect': 'mime', 'raises': False},
+    'nbdime.diff_format.MappingDiffBuilder': {'effect': None, 'raises': False},
+    '<di>.append': QUIET, '<di>.patch': QUIET, '<di>.validated': QUIET,
+})
+
+
+def detach_restored(path):
+    "on every returning path each `pop` from an argument is followed by storing the popped value back under the same name, and nothing else is stored into the arguments"
+    if path.outcome != 'return':
+        return None
+    pops = _eff(path, 'pop')
+    sets = _eff(path, 'setattr')
+    if _eff(path, 'mime') and not pops:
+        # the bundles are diffed separately but the detaching is not visible in this function (moved into a helper, done differently):
+        # nothing can be said here -- the bounded snapshots decide
+        raise _oos('the data bundle is diffed on a path without a visible detach/restore pair')
+    for e in pops:
+        obj = e.args[0] if e.args else None
+        if obj is None or len(e.args) < 2 or e.args[1].kind != 'const':
+            raise _oos('pop with a non-literal key at line %s' % e.node.lineno)
+        key = e.args[1].t
+        later = [x for x in sets if path.effects.index(x) > path.effects.index(e) and as_py(x.args[0]).eq(as_py(obj)) and x.args[1].t == key]
+        if not later:
+            return False, '%r popped at line %s is never stored back on this path' % (key, e.node.lineno)
+        if not as_py(later[0].args[2]).eq(as_py(e.result)):
+            return False, 'the value stored back under %r is not the value popped at line %s' % (key, e.node.lineno)
+    for x in sets:
+        if not any(as_py(x.args[0]).eq(as_py(e.args[0])) and x.args[1].t == e.args[1].t and path.effects.index(x) > path.effects.index(e) for e in pops):
+            return False, 'attribute %r stored at line %s without a preceding pop of it' % (x.args[1].t, x.node.lineno)
+    return True, '%d detach/restore pair(s)' % len(pops)
+
+
+C13_JOBS = [
+    ('nbdime.diffing.notebooks.diff_single_outputs', DETACH, [('detach-restored', detach_restored)], False),
+]
+
+
 C16_JOBS = [
     ('nbdime.prettyprint.pretty_print_notebook_diff', RENDER, [('empty-diff-silent', pp_empty_diff_silent)], False),
     ('nbdime.prettyprint.diff_render_with_git', RENDER, [('no-color-flag', git_no_color_flag)], False),
